@@ -4,7 +4,7 @@ package props
 //
 // Generated workloads: 2-8 client goroutines, 3-8 operations each from
 // AddFact / RemFact / GetFact / SearchFacts / AddRule / RemRule / EnableRule /
-// ProcessEvent over 2-3 shared ids of ONE location; values carry
+// RuleEnabled / GetRule / ProcessEvent over 2-3 shared ids of ONE location; values carry
 // (client, seq) so that reads are attributable.  Oracles:
 //  1. porcupine (linearizability) over the recorded call/return history with
 //     a sequential model of these operations; the final GetFact of every id
@@ -41,6 +41,26 @@ type c12Case struct {
 	// Repeat > 1 runs the workload that many times on fresh locations (used
 	// by reproducers of schedule-dependent findings).
 	Repeat int `json:"repeat,omitempty"`
+	// StoreDelayUs makes every storage write take this long.  Writes happen
+	// inside the states' locked sections, so the other clients queue up on
+	// the lock and run in the gaps between the locked steps of a request.
+	StoreDelayUs int `json:"storeDelayUs,omitempty"`
+}
+
+// c12SlowStore delays writes (see StoreDelayUs).
+type c12SlowStore struct {
+	core.Storage
+	delay time.Duration
+}
+
+func (s *c12SlowStore) Add(ctx *core.Context, loc string, data *core.Pair) error {
+	time.Sleep(s.delay)
+	return s.Storage.Add(ctx, loc, data)
+}
+
+func (s *c12SlowStore) Remove(ctx *core.Context, loc string, k []byte) (int64, error) {
+	time.Sleep(s.delay)
+	return s.Storage.Remove(ctx, loc, k)
 }
 
 var c12FactIds = []string{"f1", "f2"}
@@ -49,24 +69,45 @@ var c12RuleIds = []string{"r1", "r2"}
 func genC12(t *rapid.T) c12Case {
 	var c c12Case
 	c.Kind = rapid.SampledFrom([]string{"indexed", "linear"}).Draw(t, "kind")
-	nc := rapid.IntRange(2, 8).Draw(t, "nclients")
+	// focus concentrates the clients on one id and one family of operations
+	// (more overlapping requests on the same thing per case)
+	focus := rapid.SampledFrom([]string{"mixed", "mixed", "rules", "facts"}).Draw(t, "focus")
+	kinds := []string{"addFact", "addFact", "addFact", "remFact", "getFact", "getFact", "search", "addRule", "remRule", "disable", "enable", "event", "isEnabled", "getRule"}
+	factIds, ruleIds := c12FactIds, c12RuleIds
+	maxClients := 8
+	switch focus {
+	case "rules":
+		kinds = []string{"addRule", "addRule", "remRule", "remRule", "disable", "disable", "enable", "event", "isEnabled", "getRule"}
+		ruleIds = []string{rapid.SampledFrom(c12RuleIds).Draw(t, "focusId")}
+		maxClients = 4
+	case "facts":
+		kinds = []string{"addFact", "addFact", "remFact", "remFact", "getFact", "search"}
+		factIds = []string{rapid.SampledFrom(c12FactIds).Draw(t, "focusId")}
+		maxClients = 4
+	}
+	nc := rapid.IntRange(2, maxClients).Draw(t, "nclients")
 	for i := 0; i < nc; i++ {
 		n := rapid.IntRange(3, 8).Draw(t, fmt.Sprintf("c%d.n", i))
 		var ops []c12Op
 		for j := 0; j < n; j++ {
 			l := fmt.Sprintf("c%d.o%d", i, j)
-			k := rapid.SampledFrom([]string{"addFact", "addFact", "addFact", "remFact", "getFact", "getFact", "search", "addRule", "remRule", "disable", "enable", "event"}).Draw(t, l+".k")
+			k := rapid.SampledFrom(kinds).Draw(t, l+".k")
 			x := c12Op{K: k}
 			switch k {
 			case "addFact", "remFact", "getFact":
-				x.Id = rapid.SampledFrom(c12FactIds).Draw(t, l+".id")
-			case "addRule", "remRule", "disable", "enable":
-				x.Id = rapid.SampledFrom(c12RuleIds).Draw(t, l+".id")
+				x.Id = rapid.SampledFrom(factIds).Draw(t, l+".id")
+			case "addRule", "remRule", "disable", "enable", "isEnabled", "getRule":
+				x.Id = rapid.SampledFrom(ruleIds).Draw(t, l+".id")
 			}
 			ops = append(ops, x)
 		}
 		c.Clients = append(c.Clients, ops)
 		c.Spin = append(c.Spin, rapid.SampledFrom([]int{0, 0, 100, 1000, 10000}).Draw(t, fmt.Sprintf("c%d.spin", i)))
+	}
+	c.StoreDelayUs = rapid.SampledFrom([]int{0, 0, 20, 100}).Draw(t, "storeDelayUs")
+	if focus != "mixed" {
+		// several runs of a focused workload sample several schedules
+		c.Repeat = rapid.SampledFrom([]int{1, 3, 10}).Draw(t, "repeat")
 	}
 	return c
 }
@@ -164,6 +205,14 @@ func c12Step(st interface{}, in interface{}, out interface{}) (bool, interface{}
 		n := s.clone()
 		delete(n.Disabled, i.Id)
 		return o.Err == "", n
+	case "isEnabled":
+		return o.Err == "" && o.Res == fmt.Sprint(!s.Disabled[i.Id]), s
+	case "getRule":
+		v, have := s.Rules[i.Id]
+		if !have {
+			return o.Err == "notfound", s
+		}
+		return o.Err == "" && o.Res == v, s
 	case "event":
 		var vals []string
 		for id, tag := range s.Rules {
@@ -252,6 +301,22 @@ func c12Exec(loc *core.Location, in c12In) c12Out {
 		return c12Out{Err: errStr(loc.EnableRule(ctx, in.Id, false))}
 	case "enable":
 		return c12Out{Err: errStr(loc.EnableRule(ctx, in.Id, true))}
+	case "isEnabled":
+		b, err := loc.RuleEnabled(ctx, in.Id)
+		if err != nil {
+			return c12Out{Err: errStr(err)}
+		}
+		return c12Out{Res: fmt.Sprint(b)}
+	case "getRule":
+		r, err := loc.GetRule(ctx, in.Id)
+		if err != nil {
+			return c12Out{Err: errStr(err)}
+		}
+		code := ""
+		if a, ok := r["action"].(map[string]interface{}); ok {
+			code, _ = a["code"].(string)
+		}
+		return c12Out{Res: strings.Trim(code, "'")}
 	case "event":
 		work, cond := loc.ProcessEvent(ctx, core.Map{"go": "1"})
 		if cond != nil {
@@ -284,7 +349,12 @@ func runC12(c c12Case) *vlib.Outcome {
 }
 
 func runC12Once(c c12Case, o *vlib.Outcome) *vlib.Outcome {
-	w := newWorld(c.Kind, nil, o)
+	var store core.Storage
+	if c.StoreDelayUs > 0 && c.StoreDelayUs <= 10000 {
+		mem, _ := core.NewMemStorage(newCtx())
+		store = &c12SlowStore{mem, time.Duration(c.StoreDelayUs) * time.Microsecond}
+	}
+	w := newWorld(c.Kind, store, o)
 	loc, err := w.open("L")
 	if err != nil {
 		o.Fail("OPEN", "%v", err)
@@ -331,7 +401,7 @@ func runC12Once(c c12Case, o *vlib.Outcome) *vlib.Outcome {
 	for i, a := range history {
 		out := a.Output.(c12Out)
 		in := a.Input.(c12In)
-		if out.Err != "" && !(in.K == "getFact" && out.Err == "notfound") {
+		if out.Err != "" && !((in.K == "getFact" || in.K == "getRule") && out.Err == "notfound") {
 			o.Fail("OPERATION_FAILED", "client %d: %+v failed under concurrency: %s", a.ClientId, in, out.Err)
 			return o
 		}
